@@ -23,9 +23,9 @@ Abstractions:
   `restore_active_blob`) are not injected here.  They take the same `?` path as the logical errors below.
 
 The error policy is a parameter:
-* `ErrorPolicy.panic` is the loop up to /repo commit 790a606 (`self.process_msg(msg).await?` in `tick` and
+* `ErrorPolicy.panic` is the loop up to /repo commit 4216739 (`self.process_msg(msg).await?` in `tick` and
   `tick_with_deadline`, then `panic!` in `run`: the worker task dies on the first failed request);
-* `ErrorPolicy.logAndContinue` is the loop since /repo commit 1a06a96 (`if let Err(err) = self.process_msg(msg)
+* `ErrorPolicy.logAndContinue` is the loop since /repo commit 33c2a77 (`if let Err(err) = self.process_msg(msg)
   .await { error!(..) }`): the failed request is reported and the loop goes on.  An `Err` aborts the rest of
   the arm it occurs in; in this model every `Err` is raised before the arm has changed anything
   (`closeActive` / `tryCreateActive` / `restoreActive` fail on their precondition), so "log and continue" is
@@ -98,9 +98,9 @@ structure WState where
 deriving Repr, Inhabited
 
 inductive ErrorPolicy where
-  /-- `?` in `tick` + `panic!` in `run` (before /repo 1a06a96) -/
+  /-- `?` in `tick` + `panic!` in `run` (before /repo 33c2a77) -/
   | panic
-  /-- log the error, keep the state, go on with the next message (/repo 1a06a96 and later) -/
+  /-- log the error, keep the state, go on with the next message (/repo 33c2a77 and later) -/
   | logAndContinue
 deriving DecidableEq, Repr, Inhabited
 
